@@ -14,6 +14,17 @@ print('after flush: sent', sent, 'in_flight', q._in_flight, 'waiting', len(q._pa
 if 'b1' not in sent:
     bad.append('flush() frees credits but leaves b1 queued with 0 packets in flight')
 
+# (c) an over-report for one connection must not free the credits other connections still hold
+sent2 = []
+q2 = host.DataPacketQueue(max_packet_size=27, max_in_flight=2, send=sent2.append)
+q2.enqueue('a1', 1); q2.enqueue('b1', 2)              # one buffer each
+q2.on_packets_completed(2, 1)                          # controller over-reports for A; B's packet is still in the controller
+q2.enqueue('a2', 1); q2.enqueue('a3', 1)
+outstanding = len(sent2) - 1                           # everything sent except a1 (the only packet that can have completed)
+print('over-report: sent', sent2, 'outstanding in controller', outstanding)
+if outstanding > 2:
+    bad.append(f'after an over-report for one connection the host has {outstanding} packets in a controller that advertised 2 buffers')
+
 async def pipe():
     out = []
     p = utils.FlowControlAsyncPipe(lambda: None, lambda: None, write_to_sink=out.append, threshold=100)
